@@ -4,8 +4,9 @@
 //!
 //! Handle slots: tx0, tx1; rx0 (stream 0), rx1 (clone of rx0 -> stream 0, or add_stream -> stream 1,
 //! depending on the alphabet), ux0 (rx0 converted to a single-consumer receiver).
-//! Every alphabet has a 10-step skeleton; the solver decides for every step whether it is executed
-//! (all sub-sequences of the skeleton); an operation whose handle does not exist is skipped.
+//! Every alphabet has a 10-step skeleton; structural steps (handle creation / conversion / drop)
+//! always run, for every traffic step (send / receive / view) the solver decides whether it is
+//! executed; an operation whose handle does not exist is skipped.
 
 use crate::fl::*;
 use crate::payload;
@@ -113,7 +114,17 @@ pub fn history<F: Fl, const ALPHA: u8, const DEPTH: usize>(cap: u64, n: u8, tear
     let mut step = 0;
     while step < DEPTH {
         let c: u8 = skel[step];
-        let doit: bool = kani::any();
+        // Only traffic operations (send / receive / view) are optional.  Structural operations
+        // (creating, converting, dropping handles) always run: a handle that exists on some paths
+        // only makes allocation sizes and the Arc reference count symbolic, which does not fit into
+        // memory (measured: 0.5 M steps, out of memory at 16 GB, vs 10 s without).
+        let traffic = match ALPHA {
+            1 | 2 => c == 0 || c == 1 || c == 3,
+            3 => c == 0 || c == 2 || c == 5,
+            4 => c == 0 || c == 2 || c == 4,
+            _ => c == 0 || c == 1 || c == 4,
+        };
+        let doit: bool = if traffic { kani::any() } else { true };
         if !doit {
             step += 1;
             continue;
@@ -394,7 +405,7 @@ fd!(c03_fill_mp_c9, hk_c03_fill_mp_c9, MpB, 9, 16);
 //   ps sends | [second stream or second handle] | pr0 receives on rx0 | pr1 receives on rx1
 //   | ps2 more sends (overwrite slots every stream has passed) | [view one in place] | teardown
 
-pub fn drop_template<F: Fl, const SECOND: u8, const SENDERS_FIRST: bool>(cap: u64, n: u8) {
+pub fn drop_template<F: Fl, const SECOND: u8, const SENDERS_FIRST: bool, const VIEW: bool>(cap: u64, n: u8) {
     // SECOND: 0 = nothing, 1 = rx1 = rx0.clone(), 2 = rx1 = rx0.add_stream()
     payload::reset();
     sched::configure(0, 0, 0, 0);
@@ -445,8 +456,8 @@ pub fn drop_template<F: Fl, const SECOND: u8, const SENDERS_FIRST: bool>(cap: u6
         }
         i += 1;
     }
-    let view: bool = kani::any();
-    if view && SECOND != 1 {
+    // structural choices are harness parameters (see `history`)
+    if VIEW && SECOND != 1 {
         let r = w.rx[0].take().unwrap();
         match F::into_single(r) {
             Ok(mut u) => {
@@ -478,12 +489,13 @@ pub fn drop_template<F: Fl, const SECOND: u8, const SENDERS_FIRST: bool>(cap: u6
 }
 
 macro_rules! dt {
-    ($name:ident, $hk:ident, $f:ty, $second:literal, $sf:literal, $cap:literal, $n:literal) => {
-        crate::mq_harness!($name, $hk, Idle, drop_template::<$f, $second, $sf>($cap, $n));
+    ($name:ident, $hk:ident, $f:ty, $second:literal, $sf:literal, $view:literal, $cap:literal, $n:literal) => {
+        crate::mq_harness!($name, $hk, Idle, drop_template::<$f, $second, $sf, $view>($cap, $n));
     };
 }
-dt!(c05_seq_bc_n2_streams, hk_c05_seq_bc_n2_streams, BcT, 2, true, 2, 2);
-dt!(c05_seq_bc_n1_shared, hk_c05_seq_bc_n1_shared, BcT, 1, false, 1, 1);
-dt!(c05_seq_mp_n2_shared, hk_c05_seq_mp_n2_shared, MpT, 1, false, 2, 2);
-dt!(c05_seq_mp_n1_single, hk_c05_seq_mp_n1_single, MpT, 0, true, 1, 1);
-dt!(c05_seq_bc_n2_single, hk_c05_seq_bc_n2_single, BcT, 0, false, 2, 2);
+dt!(c05_seq_bc_n2_streams, hk_c05_seq_bc_n2_streams, BcT, 2, true, false, 2, 2);
+dt!(c05_seq_bc_n1_shared, hk_c05_seq_bc_n1_shared, BcT, 1, false, false, 1, 1);
+dt!(c05_seq_mp_n2_shared, hk_c05_seq_mp_n2_shared, MpT, 1, false, false, 2, 2);
+dt!(c05_seq_mp_n1_single, hk_c05_seq_mp_n1_single, MpT, 0, true, true, 1, 1);
+dt!(c05_seq_bc_n2_single, hk_c05_seq_bc_n2_single, BcT, 0, false, true, 2, 2);
+
